@@ -13,6 +13,7 @@ import (
 	"math/rand/v2"
 	"reflect"
 	"sort"
+	"strconv"
 	"strings"
 	"time"
 
@@ -22,6 +23,7 @@ import (
 	_ "github.com/ozontech/file.d/plugin/output/elasticsearch"
 	_ "github.com/ozontech/file.d/plugin/output/http"
 	_ "github.com/ozontech/file.d/plugin/output/kafka"
+	_ "github.com/ozontech/file.d/plugin/output/loki"
 	_ "github.com/ozontech/file.d/plugin/output/splunk"
 	"github.com/ozontech/file.d/zz_verifharness/core"
 	"github.com/ozontech/file.d/zz_verifharness/h1pipe"
@@ -40,6 +42,7 @@ type Ev struct {
 	Svc    string        `json:"svc"`    // routing field (index / topic)
 	HasSvc bool          `json:"has_svc"`
 	Parent bool          `json:"parent,omitempty"` // child-parent kind: must be omitted from payloads
+	TS     bool          `json:"ts,omitempty"`     // carries a "ts" field (unix nanoseconds as a string; loki's timestamp field)
 	Pause  time.Duration `json:"pause,omitempty"`
 }
 
@@ -70,7 +73,7 @@ var nasty = []string{"plain", "", "with \"quotes\"", "back\\slash", "new\nline",
 func (h *H) Gen(rng *rand.Rand, tier, prop string) core.Cfg {
 	c := &Cfg{}
 	c.Sim = simrt.Config{PSwitch: core.Pick(rng, 0.02, 0.1, 0.3), StepCost: time.Microsecond, MaxSteps: 1_500_000, Horizon: time.Hour, Faults: map[string]float64{}}
-	c.Sink = core.Pick(rng, "es", "es", "http", "splunk", "kafka")
+	c.Sink = core.Pick(rng, "es", "es", "http", "splunk", "kafka", "loki")
 	c.BatchSize = core.Between(rng, 1, 8)
 	c.Workers = core.Pick(rng, 1, 1, 2, 3)
 	c.Flush = core.DurBetween(rng, 10*time.Millisecond, 300*time.Millisecond)
@@ -108,6 +111,9 @@ func (h *H) Gen(rng *rand.Rand, tier, prop string) core.Cfg {
 		}
 		if core.Chance(rng, 0.08) {
 			e.Parent = true
+		}
+		if c.Sink == "loki" && core.Chance(rng, 0.5) {
+			e.TS = true
 		}
 		if core.Chance(rng, 0.3) {
 			e.Pause = core.DurBetween(rng, time.Millisecond, 2*c.Flush)
@@ -183,6 +189,9 @@ func evJSON(e Ev) string {
 	if e.HasSvc {
 		m["svc"] = e.Svc
 	}
+	if e.TS {
+		m["ts"] = tsOf(e)
+	}
 	// encoding/json replaces invalid UTF-8; build by hand to keep raw bytes
 	var sb strings.Builder
 	sb.WriteString("{")
@@ -206,6 +215,9 @@ func evJSON(e Ev) string {
 	sb.WriteString("}")
 	return sb.String()
 }
+
+// tsOf is the event's own time stamp in loki's format (unix nanoseconds, in the past of the simulated clock).
+func tsOf(e Ev) string { return strconv.Itoa(1600000000000000000 + e.ID) }
 
 // rawJSONString escapes what JSON requires and keeps every other byte as is
 // (including invalid UTF-8, as a log line may contain).
@@ -386,6 +398,64 @@ func (r *run) endpoint(c *simfasthttp.Call) simfasthttp.Reply {
 			}
 			ids = append(ids, r.checkDoc(doc, req, i, ok, where))
 		}
+	case "loki":
+		if status == 200 {
+			status = 204
+			ok = true
+		}
+		doc, err := norm(c.Body)
+		if err != nil {
+			r.viol("push-not-json", "%s: the push request is not valid JSON (%v): %q", where, err, trunc(c.Body))
+			break
+		}
+		top, _ := doc.(map[string]any)
+		streams, _ := top["streams"].([]any)
+		if len(top) != 1 || len(streams) != 1 {
+			r.viol("push-shape", "%s: expected {\"streams\":[one stream]}: %q", where, trunc(c.Body))
+			break
+		}
+		st, _ := streams[0].(map[string]any)
+		if !reflect.DeepEqual(st["stream"], map[string]any{"app": "fd"}) {
+			r.viol("push-labels", "%s: stream labels are %v, configured {app: fd}", where, st["stream"])
+		}
+		vals, _ := st["values"].([]any)
+		for i, v := range vals {
+			ent, _ := v.([]any)
+			if len(ent) != 3 {
+				r.viol("push-entry-shape", "%s: values[%d] is not [ts, line, metadata]: %v", where, i, v)
+				continue
+			}
+			ts, tsOK := ent[0].(string)
+			line, lineOK := ent[1].(string)
+			md, mdOK := ent[2].(map[string]any)
+			if !tsOK || !lineOK || !mdOK {
+				r.viol("push-entry-shape", "%s: values[%d] is not [string, string, object]: %v", where, i, v)
+				continue
+			}
+			// put the event together again: metadata + line (+ its own time stamp)
+			idf, has := md["id"].(float64)
+			if !has {
+				r.viol("document-without-id", "%s: values[%d] has no id in its metadata: %v", where, i, v)
+				ids = append(ids, -1)
+				continue
+			}
+			e, known := r.byID[int(idf)]
+			whole := map[string]any{}
+			for k, x := range md {
+				whole[k] = x
+			}
+			if known && len(e.Fields) > 0 {
+				whole["f0"] = line
+			} else if line != "" {
+				r.viol("document-altered", "%s: values[%d] (id %d) carries the line %q, the event has no message field", where, i, int(idf), line)
+			}
+			if known && e.TS {
+				whole["ts"] = ts
+			} else if n, err := strconv.ParseInt(ts, 10, 64); err != nil || n <= 0 {
+				r.viol("push-entry-shape", "%s: values[%d] has time stamp %q, not unix nanoseconds", where, i, ts)
+			}
+			ids = append(ids, r.checkDoc(whole, req, i, ok, where))
+		}
 	case "splunk":
 		dec := json.NewDecoder(bytes.NewReader(c.Body))
 		for i := 0; ; i++ {
@@ -437,6 +507,9 @@ func (r *run) endpoint(c *simfasthttp.Call) simfasthttp.Reply {
 	body := []byte(`{"took":1,"errors":false,"items":[]}`)
 	if cfg.Sink == "splunk" {
 		body = []byte(`{"code":0,"text":"Success"}`)
+	}
+	if cfg.Sink == "loki" && status == 204 {
+		body = nil
 	}
 	if status != 200 {
 		body = []byte(`{"error":"simulated"}`)
@@ -504,7 +577,7 @@ func (h *H) Run(cc core.Cfg, sim *simrt.Sim) *core.Outcome {
 			}
 			return nil
 		}
-		typ := map[string]string{"es": "elasticsearch", "http": "http", "splunk": "splunk", "kafka": "kafka"}[cfg.Sink]
+		typ := map[string]string{"es": "elasticsearch", "http": "http", "splunk": "splunk", "kafka": "kafka", "loki": "loki"}[cfg.Sink]
 		static, err := fd.DefaultPluginRegistry.Get(pipeline.PluginKindOutput, typ)
 		if err != nil {
 			panic(err)
@@ -526,6 +599,8 @@ func (h *H) Run(cc core.Cfg, sim *simrt.Sim) *core.Outcome {
 				cp = `,"copy_fields":[{"from":"svc","to":"fields.svc"}]`
 			}
 			js = fmt.Sprintf(`{"endpoint":"http://splunk:8088/services/collector","token":"t","request_timeout":"1s",%s%s%s}`, common, gz, cp)
+		case "loki":
+			js = fmt.Sprintf(`{"address":"http://loki:3100","labels":[{"label":"app","value":"fd"}],"message_field":"f0","timestamp_field":"ts","connection_timeout":"1s",%s}`, common)
 		case "kafka":
 			js = fmt.Sprintf(`{"brokers":["sim:9092"],"default_topic":"logs","use_topic_field":true,"topic_field":"svc",%s}`, common)
 		}
